@@ -96,19 +96,23 @@ def random_scenario(rnd, n, wc, wf, ntx, length):
 
 # ---------------------------------------------------------------------------------------------- real chains
 def build_chains(scenarios):
-    inp = "".join(json.dumps(s) + "\n" for s in scenarios)
-    rc, out = V.ckbv("c06", ["chains"], timeout=1500, stdin=inp.encode())
-    lines = V.parse_ndjson(out)
-    summ = [x["summary"] for x in lines if "summary" in x]
-    if rc != 0 or not summ:
-        V.log(out[-3000:])
-        raise V.ToolError("c06 chains failed rc=%d" % rc)
     res = {}
-    for x in lines:
-        if "scenario" in x:
-            if "error" in x:
-                raise V.ToolError("scenario %s could not be built on the real node: %s" % (x["scenario"], x["error"]))
-            res[x["scenario"]] = x
+    # <= 20 chains per harness process: every node keeps ~75 MB of preallocated RocksDB WAL until the process ends
+    # (vcheck.ckbv removes the process's TMPDIR afterwards)
+    for i in range(0, len(scenarios), 20):
+        part = scenarios[i:i + 20]
+        inp = "".join(json.dumps(s) + "\n" for s in part)
+        rc, out = V.ckbv("c06", ["chains"], timeout=1500, stdin=inp.encode())
+        lines = V.parse_ndjson(out)
+        summ = [x["summary"] for x in lines if "summary" in x]
+        if rc != 0 or not summ:
+            V.log(out[-3000:])
+            raise V.ToolError("c06 chains failed rc=%d" % rc)
+        for x in lines:
+            if "scenario" in x:
+                if "error" in x:
+                    raise V.ToolError("scenario %s could not be built on the real node: %s" % (x["scenario"], x["error"]))
+                res[x["scenario"]] = x
     return res
 
 
